@@ -10,7 +10,7 @@ PARTIAL = {
     "C03": "none since C03Float (FloatTextOk proved); float text routines themselves are model code validated against strconv by the tie",
     "C06": "allocation proved for the model's make sites, measured on the real code; Go-runtime panics observed by the tie only",
     "C11": "independence (no shared storage) cannot be expressed over immutable model values: tie only (mutation probing); equality proved on `fullTy`",
-    "C12": "fixpoint proved for the untyped chain; typed leg proved on fullTy for atlases without tagged entries (with tags: examples + tie); JSON typed leg only for float-free typed targets",
+    "C12": "fixpoint proved for the untyped chain; typed leg proved on fullTy incl. tagged entries (token level and CBOR; with tags under TagsOk/TagStab); JSON typed leg only for float-free typed targets",
     "C15": "none in the model since C15Prog (decoder models = programs over the reader operations); real decoders vs schedules: tie",
     "C17": "codec instances: proved for every history (C17Reuse); object-layer machines (slab rows, per-instance caches) have no state in the model, so their reuse after any history is tie only",
     "C18": "memory model / scheduler not modelled: non-interference theorem + regenerated SSA write-set + race detector",
